@@ -365,23 +365,26 @@ PROPS["C17"] = {
 }
 PROPS["C16"]["runs"] = (lambda base: (lambda tier: base(tier) + [
     {"cfg": "dbg", "harness": "h_prob", "sub": "eval", "cases": 2000 if tier == "quick" else 40000, "max_size": 300, "shards": 3, "budget_ms": 20000, "excl": list(GEN_EXCL)},
-    {"cfg": "dbg", "harness": "h_prob", "sub": "evalp", "cases": 2000 if tier == "quick" else 40000, "max_size": 300, "shards": 1, "budget_ms": 20000, "excl": list(GEN_EXCL), "opts": {"layer": "evalp"}}]))(PROPS["C16"]["runs"])
+    {"cfg": "dbg", "harness": "h_prob", "sub": "evalp", "cases": 2000 if tier == "quick" else 40000, "max_size": 300, "shards": 1, "budget_ms": 20000, "excl": list(GEN_EXCL), "opts": {"layer": "evalp"}},
+    {"cfg": "dbg", "harness": "h_prob", "sub": "methods", "cases": 1000 if tier == "quick" else 20000, "max_size": 300, "shards": 1, "budget_ms": 20000, "excl": list(GEN_EXCL), "opts": {"layer": "L1m"}}]))(PROPS["C16"]["runs"])
 PROPS["C16"]["rule"] = PROPS["C16"]["rule"].replace("Three parser-level sub-checks (evaluation of constant expressions is checked on solved programs, see the eval sub-run when present).",
     "Three parser-level sub-checks and an evaluation sub-check. eval: programs 'real v = <constant expression>;' / 'v == <constant expression>;' / 'bool c = <boolean expression over "
     "constants>;' (products and quotients of constants, constant * expression, unary minus, all relations, & ^ ! == != and, outside the known finding KF2, | and ->), solved in-process; "
     "the reported value of every such variable must equal the harness's exact evaluation (non-trivial: a product, division, unary minus or boolean constant expression). "
     "evalp: the same constant expressions in the other syntactic positions the statement names - a field initialiser (real f = e;), a constructor argument (new EA(e)), an argument in "
     "a constructor's initialiser list (h(e)), a predicate argument (new EP(x: e)) and a rule body (y == x + (e)) - the field / parameter read back from the solution must equal "
-    "the exact value.")
+    "the exact value. methods: top-level methods returning a value built from their arguments (real lin(real a) { return a * k + c; }, bool atleast(real a), real diff(real a, real b)) "
+    "called as field initialisers, nested, with two arguments and as statements; a call denotes the expression the method returns, so every variable pinned through calls must read "
+    "back as the harness's exact evaluation.")
 PROPS["C16"]["assumptions"] = ["literals stay within 18 digits", "eval sub-run: '|' and '->' are generated only where a disjunction is asserted (known finding KF2)"]
 # LeakSanitizer suppression files switched on by the exclusion names of the known leak findings (see check: env_for)
 LSAN_SUPP = {"solver_teardown_keeps_flaws": "tools/lsan-kf8.supp", "builtin_type_syntax_trees_kept": "tools/lsan-kf9.supp"}
 PROPS["C18"]["runs"] = (lambda base: (lambda tier: base(tier) + [
     {"cfg": "dbg", "harness": "h_prob", "cases": 600 if tier == "quick" else 20000, "max_size": 300, "shards": 2, "budget_ms": 20000, "excl": list(GEN_EXCL),
-     "opts": {"layer": l}, "replay_args": ["--crash-violation"]} for l in ("L0", "L1", "L1b", "L2", "L3", "L3b", "L3d")] + [
+     "opts": {"layer": l}, "replay_args": ["--crash-violation"]} for l in ("L0", "L1", "L1b", "L1m", "L2", "L3", "L3b", "L3d")] + [
     # the same programs with LeakSanitizer at the end of every case (about 0.3 s per case: matching the suppressions of the known leak findings needs symbolised stacks)
     {"cfg": "dbg", "harness": "h_prob", "sub": "leaks", "cases": 50 if tier == "quick" else 2500, "max_size": 300, "shards": 2 if tier == "quick" else 4, "budget_ms": 20000, "excl": list(GEN_EXCL),
-     "opts": {"layer": l, "leakcheck": "1"}, "leak": True, "replay_args": ["--crash-violation"]} for l in ("L0", "L1", "L1b", "L2", "L3", "L3b", "L3d")] + [
+     "opts": {"layer": l, "leakcheck": "1"}, "leak": True, "replay_args": ["--crash-violation"]} for l in ("L0", "L1", "L1b", "L1m", "L2", "L3", "L3b", "L3d")] + [
     {"kind": "fuzz", "cfg": "fz", "harness": "fz_lang", "sub": "fuzz", "cases": 6000 if tier == "quick" else 400000, "max_size": 4096, "shards": 8 if tier == "quick" else 16,
      "seed_corpus": "corpus/lang", "dict": "corpus/riddle.dict"}]))(PROPS["C18"]["runs"])
 PROPS["C18"]["rule"] += (" programs (valid typed programs of the C01 generator, layers L0/L1/L3, through read()+solve() in the Debug+ASan+UBSan build): any signal, assertion failure, std::terminate or "
